@@ -354,6 +354,8 @@ package atree
 //@   ensures[C01 C05] err == nil ==> (forall k :: 0 <= k && k < len(a.childrenHeaders) ==> hdrBand(a.childrenHeaders[k]))
 //@   ensures[C01 C03 C08] err == nil ==> has(stored, a)
 //@   ensures[C18] err != nil ==> categorised(err)
+//@   # the routed child's header is copied into the parent before the child is examined for overflow / underflow (C05: index data agrees with the data it summarises)
+//@   before[C01 C05] ArrayDataSlab.IsFull: arg_recv == child && a.childrenHeaders[childHeaderIndex] == as(child, *ArrayDataSlab).header
 //@   modifies ArrayMetaDataSlab.childrenHeaders@inSub(a), ArrayMetaDataSlab.childrenCountSum@inSub(a), ArrayMetaDataSlab.header@inSub(a),
 //@        ArrayDataSlab.elements@inSub(a), ArrayDataSlab.header@inSub(a), ArrayDataSlab.next@inSub(a), ghost.sto, ghost.issued, ghost.stored, ghost.touched, alloc,
 //@        as(valueRoot(value), *ArrayDataSlab).header, as(valueRoot(value), *ArrayDataSlab).inlined, as(valueRoot(value), *MapDataSlab).header, as(valueRoot(value), *MapDataSlab).inlined
@@ -375,6 +377,8 @@ package atree
 //@   ensures[C01 C05] err == nil ==> (forall k :: 0 <= k && k < len(a.childrenHeaders) ==> hdrBand(a.childrenHeaders[k]))
 //@   ensures[C01 C03 C08] err == nil ==> has(stored, a)
 //@   ensures[C18] err != nil ==> categorised(err)
+//@   # the routed child's header is copied into the parent before the child is examined for overflow / underflow (C05: index data agrees with the data it summarises)
+//@   before[C01 C05] ArrayDataSlab.IsFull: arg_recv == child && a.childrenHeaders[childHeaderIndex] == as(child, *ArrayDataSlab).header
 //@   modifies ArrayMetaDataSlab.childrenHeaders@inSub(a), ArrayMetaDataSlab.childrenCountSum@inSub(a), ArrayMetaDataSlab.header@inSub(a),
 //@        ArrayDataSlab.elements@inSub(a), ArrayDataSlab.header@inSub(a), ArrayDataSlab.next@inSub(a), ghost.sto, ghost.issued, ghost.stored, ghost.touched, alloc,
 //@        as(valueRoot(value), *ArrayDataSlab).header, as(valueRoot(value), *ArrayDataSlab).inlined, as(valueRoot(value), *MapDataSlab).header, as(valueRoot(value), *MapDataSlab).inlined
@@ -398,6 +402,8 @@ package atree
 //@   ensures[C01 C05] err == nil ==> (forall k :: 0 <= k && k < len(a.childrenHeaders) ==> hdrBand(a.childrenHeaders[k]))
 //@   ensures[C01 C03 C08] err == nil ==> has(stored, a)
 //@   ensures[C18] err != nil ==> categorised(err)
+//@   # the routed child's header is copied into the parent before the child is examined for overflow / underflow (C05: index data agrees with the data it summarises)
+//@   before[C01 C05] ArrayDataSlab.IsUnderflow: arg_recv == child && a.childrenHeaders[childHeaderIndex] == as(child, *ArrayDataSlab).header
 //@   modifies ArrayMetaDataSlab.childrenHeaders@inSub(a), ArrayMetaDataSlab.childrenCountSum@inSub(a), ArrayMetaDataSlab.header@inSub(a),
 //@        ArrayDataSlab.elements@inSub(a), ArrayDataSlab.header@inSub(a), ArrayDataSlab.next@inSub(a), ghost.sto, ghost.issued, ghost.stored, ghost.touched, alloc
 //@   loop 1: invariant childHeaderIndex <= i && i <= len(a.childrenCountSum) && len(a.childrenCountSum) == len(a.childrenHeaders) &&
